@@ -8,6 +8,7 @@ import (
 	"vh/bed"
 	"vh/core"
 	"vh/crdt"
+	"vh/fakemongo"
 )
 
 var (
@@ -26,7 +27,7 @@ func init() {
 		ID:      "C13",
 		Level:   "exploration",
 		Workers: 16,
-		Rule: fmt.Sprintf("complete matrix entry mode {create, subscribe, subscribe-or-create} x existing datatype {none, same type, other type, same type already subscribed by this client} x other client {absent, sequentially first, racing in parallel (2-5 clients)} x point of history {fresh, after operations, after a snapshot exists} x four types = %d cells, repeated with different seeds (operations before / after, number of racers). Expected outcome from the statement: create on a key that exists, subscribe on a missing key, any mode on a key of another type => the error handler receives an error, the stored data are unchanged (store diff empty, volatile timestamps ignored), no transition to SUBSCRIBED; otherwise success: state SUBSCRIBED, the state-change handler reports -> SUBSCRIBED exactly once, the first readable state equals the replay of the log up to the response checkpoint; racing clients: exactly one datatype document per (collection, key) and outcomes consistent with some serial order; ",
+		Rule: fmt.Sprintf("complete matrix entry mode {create, subscribe, subscribe-or-create} x existing datatype {none, same type, other type, same type already subscribed by this client} x other client {absent, sequentially first, racing in parallel (2-5 clients)} x point of history {fresh, after operations, after a snapshot exists} x four types = %d cells, repeated with different seeds (operations before / after, number of racers). Expected outcome from the statement: create on a key that exists, subscribe on a missing key, any mode on a key of another type => the error handler receives an error, the stored data are unchanged (store diff empty, volatile timestamps ignored), no transition to SUBSCRIBED; otherwise success: state SUBSCRIBED, the state-change handler reports -> SUBSCRIBED exactly once, the first readable state equals the replay of the log up to the response checkpoint; racing clients: exactly one datatype document per (collection, key) and outcomes consistent with some serial order; in every second repetition of the non-racing cells the entering client's first request is aborted by the server (one database command of its handler fails): the abort must reach the error handler, must not make the datatype SUBSCRIBED, must change nothing stored when the failed command is a read, and the retry is judged like a first entry; ",
 			c13Cells()) +
 			"non-trivial = every cell; distinct = cell x repetition",
 		Assumptions: []string{
@@ -42,12 +43,13 @@ func init() {
 }
 
 type c13entry struct {
-	cl     *bed.Client
-	d      *bed.DT
-	ex     *bed.Exchange
-	pm     string
-	before map[string]string
-	after  map[string]string
+	cl      *bed.Client
+	d       *bed.DT
+	ex      *bed.Exchange
+	pm      string
+	before  map[string]string
+	after   map[string]string
+	errBase int // errors the handler had received before the judged request (an aborted first attempt)
 }
 
 func otherType(t string, r interface{ Intn(int) int }) string {
@@ -232,6 +234,7 @@ func runC13(c *core.Case) *core.Result {
 			return c.Inconclusive("idle")
 		}
 		errs, trs, _ := e.d.Handler()
+		errs = errs[e.errBase:]
 		nSub := 0
 		for _, t := range trs {
 			if t.New == model.StateOfDatatype_SUBSCRIBED {
@@ -286,6 +289,78 @@ func runC13(c *core.Case) *core.Result {
 			}
 			c.Count("refusals_with_empty_diff", 1)
 		}
+		return nil
+	}
+	// abortedFirst: the entry request of e is aborted by the server - one database command of
+	// its handler fails - before e enters for real. The abort must be an answer that the
+	// client reports through its error handler, without becoming SUBSCRIBED and (when the
+	// failed command is a read) without any stored change; the retry is then judged as usual.
+	abortedFirst := func(e *c13entry) *core.Result {
+		points := [][2]string{{"find", "-_-Datatypes"}, {"find", "-_-Datatypes"}, {"update", "-_-Datatypes"}, {"insert", "-_-Operations"}, {"find", "-_-Operations"}}
+		pt := points[r.Intn(len(points))]
+		var mu sync.Mutex
+		hit := false
+		w.b.DB.SetPlan(func(cmd *fakemongo.Cmd) fakemongo.Action {
+			mu.Lock()
+			defer mu.Unlock()
+			if !hit && cmd.Name == pt[0] && cmd.Coll == pt[1] {
+				hit = true
+				return fakemongo.Action{Fail: true}
+			}
+			return fakemongo.Action{}
+		})
+		c.Step("%s's entry request meets a failing %s %s", e.cl.Alias, pt[0], pt[1])
+		doSync(e, true)
+		w.b.DB.SetPlan(nil)
+		mu.Lock()
+		wasHit := hit
+		mu.Unlock()
+		if e.ex.Out.Panic != "" {
+			return c.Violation("server-panic", "ProcessPushPull panicked when %s %s failed: %s", pt[0], pt[1], e.ex.Out.Panic)
+		}
+		if e.ex.Out.TimedOut {
+			if e.ex.Out.Hang {
+				return c.Violation("request-hang", "the entry request never returned when %s %s failed\n%s", pt[0], pt[1], clipDump(e.ex.Out.Dump))
+			}
+			return c.Inconclusive("request watchdog")
+		}
+		if e.pm != "" {
+			return c.Violation("client-panic", "ApplyPushPullPack panicked on the answer to an aborted entry: %s", e.pm)
+		}
+		if !w.idle() {
+			return c.Inconclusive("idle")
+		}
+		errs, trs, _ := e.d.Handler()
+		if !wasHit {
+			// the request was decided before reaching that command (e.g. refused earlier)
+			c.Count("aborted_entry_fault_not_reached", 1)
+			e.errBase = len(errs)
+			return nil
+		}
+		c.Count("aborted_entries", 1)
+		if !e.ex.Refused() {
+			// a failed read of the log tail of an entry that pulls nothing can be harmless
+			c.Count("aborted_entry_answered_without_error", 1)
+			e.errBase = len(errs)
+			return nil
+		}
+		if e.ex.Out.Err == nil && len(errs) == 0 {
+			return c.Violation("abort-not-delivered", "the server aborted the %s (failing %s %s, error pack) but the client's error handler was not called", mode, pt[0], pt[1])
+		}
+		for _, t := range trs {
+			if t.New == model.StateOfDatatype_SUBSCRIBED {
+				return c.Violation("subscribed-after-abort", "the server aborted the %s (failing %s %s) but the client's state-change handler reported SUBSCRIBED", mode, pt[0], pt[1])
+			}
+		}
+		if e.d.DT.GetState() == model.StateOfDatatype_SUBSCRIBED {
+			return c.Violation("subscribed-after-abort", "the server aborted the %s (failing %s %s) but the datatype is in state SUBSCRIBED", mode, pt[0], pt[1])
+		}
+		if pt[0] == "find" {
+			if d := fakemongoDiff(e.before, w.b.DB.Flat(true)); len(d) > 0 {
+				return c.Violation("aborted-but-changed", "the aborted %s (failing %s %s) changed stored data: %v", mode, pt[0], pt[1], d)
+			}
+		}
+		e.errBase = len(errs)
 		return nil
 	}
 	switch {
@@ -364,6 +439,11 @@ func runC13(c *core.Case) *core.Result {
 		}
 	case other == "absent":
 		e := enter("X")
+		if rep%2 == 1 {
+			if res := abortedFirst(e); res != nil {
+				return res
+			}
+		}
 		doSync(e, true)
 		if res := judge(e, expectOK(exists, sameType), true); res != nil {
 			return res
@@ -382,6 +462,11 @@ func runC13(c *core.Case) *core.Result {
 			same = true
 		}
 		e := enter("X")
+		if rep%2 == 1 {
+			if res := abortedFirst(e); res != nil {
+				return res
+			}
+		}
 		doSync(e, true)
 		if res := judge(e, expectOK(existsNow, same), true); res != nil {
 			return res
